@@ -75,13 +75,13 @@ func c12Alphabets() []*c12Sys {
 			{"3.0", "", 6, false},
 		},
 		sat: map[string][]string{
-			"[1.0,2.0)": {"1.0", "1.0.0", "1", "1.1", "2.0-rc-1"},
-			"[1.0]":     {"1.0", "1.0.0", "1"},
-			"(,1.1]":    {"0.9", "1.0", "1.0.0", "1", "1.1"},
-			"[2.0,)":    {"2.0", "2.0.1", "3.0"},
-			"1.0":       {"0.9", "1.0", "1.0.0", "1", "1.1", "2.0-rc-1", "2.0", "2.0.1", "3.0"},
-			"(1.0,2.0)": {"1.1", "2.0-rc-1"},
-			"[4.0,)":    {},
+			"[1.0,2.0)":             {"1.0", "1.0.0", "1", "1.1", "2.0-rc-1"},
+			"[1.0]":                 {"1.0", "1.0.0", "1"},
+			"(,1.1]":                {"0.9", "1.0", "1.0.0", "1", "1.1"},
+			"[2.0,)":                {"2.0", "2.0.1", "3.0"},
+			"1.0":                   {"0.9", "1.0", "1.0.0", "1", "1.1", "2.0-rc-1", "2.0", "2.0.1", "3.0"},
+			"(1.0,2.0)":             {"1.1", "2.0-rc-1"},
+			"[4.0,)":                {},
 			"[1.0,1.1),[2.0,2.0.1]": {"1.0", "1.0.0", "1", "2.0", "2.0.1"},
 		},
 		nonRange: []string{"[oops", "3.0]"},
@@ -101,17 +101,17 @@ func c12Alphabets() []*c12Sys {
 			{"3.0", "", 6, false},
 		},
 		sat: map[string][]string{
-			"":         {"0.9", "1.0", "1.0.0", "1", "1.1", "2.0", "2.0.0", "2.0.1", "3.0"},
-			">=1.0":    {"1.0", "1.0.0", "1", "1.1", "2.0", "2.0.0", "2.0.1", "3.0"},
-			"==1.0":    {"1.0", "1.0.0", "1"},
-			"<2.0":     {"0.9", "1.0", "1.0.0", "1", "1.1"},
-			"<=2.0":    {"0.9", "1.0", "1.0.0", "1", "1.1", "2.0", "2.0.0"},
-			"~=1.0":    {"1.0", "1.0.0", "1", "1.1"},
-			"!=1.1":    {"0.9", "1.0", "1.0.0", "1", "2.0", "2.0.0", "2.0.1", "3.0"},
-			">2.0":     {"2.0.1", "3.0"},
-			"==2.0.*":  {"2.0", "2.0.0", "2.0.1"},
+			"":                   {"0.9", "1.0", "1.0.0", "1", "1.1", "2.0", "2.0.0", "2.0.1", "3.0"},
+			">=1.0":              {"1.0", "1.0.0", "1", "1.1", "2.0", "2.0.0", "2.0.1", "3.0"},
+			"==1.0":              {"1.0", "1.0.0", "1"},
+			"<2.0":               {"0.9", "1.0", "1.0.0", "1", "1.1"},
+			"<=2.0":              {"0.9", "1.0", "1.0.0", "1", "1.1", "2.0", "2.0.0"},
+			"~=1.0":              {"1.0", "1.0.0", "1", "1.1"},
+			"!=1.1":              {"0.9", "1.0", "1.0.0", "1", "2.0", "2.0.0", "2.0.1", "3.0"},
+			">2.0":               {"2.0.1", "3.0"},
+			"==2.0.*":            {"2.0", "2.0.0", "2.0.1"},
 			">=1.0,<2.0.1,!=1.1": {"1.0", "1.0.0", "1", "2.0", "2.0.0"},
-			">3.0":     {},
+			">3.0":               {},
 		},
 		nonRange: []string{"oops<", "2.0"},
 	}
